@@ -1,17 +1,19 @@
 SPECIFICATION Spec
-CONSTANTS MaxMono = 2
- MaxOps = 1
- MaxSize = 12
- InitP <- UniverseP
- InitQ <- QWide
- InitR <- RSmall
+CONSTANTS MaxMono = 0
+ CoefSet <- Coefs3
+ MaxOps = 3
+ MaxSize = 9
+ InitP <- ZeroOnly
+ InitQ <- ZeroOnly
+ InitR <- ZeroOnly
  Gens <- GensSmall
  Scalars <- ScalarsSmall
- Kinds <- KindsOps
+ Kinds <- KindsAll
  Record = FALSE
  EmitAll = FALSE
 INVARIANT NormalForm
 INVARIANT EvalCommutes
 INVARIANT EvalDefined
 INVARIANT RingLaws
+INVARIANT SeqDenotes
 CHECK_DEADLOCK FALSE
